@@ -84,9 +84,16 @@ Theorem C19_switched_off_only_when_blamed :
   | HRead rs => nth_error rs i = Some RClosed
   | HWrite os => exists o, nth_error os i = Some o /\ cancels o = true
   | HBatch _ => False
+  | HReconnect => False
   end.
 Proof. exact switched_off_only_when_blamed. Qed.
 Print Assumptions C19_switched_off_only_when_blamed.
+
+(* DisconnectAll + Connect gives every endpoint a fresh context: all are tried again *)
+Theorem C19_reconnect_revives_all :
+  forall s, forallb (fun b => b) (h_alive (fst (hstep s HReconnect))) = true.
+Proof. exact reconnect_revives_all. Qed.
+Print Assumptions C19_reconnect_revives_all.
 
 (* hence a call made after any number of reads that failed with other errors fails over exactly as
    if those reads had not happened *)
